@@ -152,6 +152,23 @@ def module_events(m):
     return ev
 
 
+def static_all(m):
+    """the names listed by `__all__ = [...]` in module m, or None when absent / not a literal"""
+    out = None
+    for s in m.tree.body:
+        if isinstance(s, (ast.Assign, ast.AnnAssign)) and s.value is not None:
+            tg = s.targets if isinstance(s, ast.Assign) else [s.target]
+            if any(isinstance(t, ast.Name) and t.id == "__all__" for t in tg):
+                v = s.value
+                if isinstance(v, (ast.List, ast.Tuple)) and all(
+                    isinstance(e, ast.Constant) and isinstance(e.value, str) for e in v.elts
+                ):
+                    out = [e.value for e in v.elts]
+                else:
+                    out = None
+    return out
+
+
 class ImportMachine(object):
     """the abstract machine; `events` is {module name: event list}"""
 
@@ -159,6 +176,7 @@ class ImportMachine(object):
         self.index = index
         self.mods = index.modules
         self.events = events or {n: module_events(m) for n, m in index.modules.items()}
+        self.all_lists = {n: static_all(m) for n, m in index.modules.items()}
 
     def run(self, order):
         """
@@ -223,6 +241,32 @@ class ImportMachine(object):
                     for name, asname in names:
                         if base in mods:
                             if name == "*":
+                                # `from M import *`: the names of M.__all__ if it is bound by now,
+                                # otherwise every public name bound in M so far
+                                have = ns.get(base, set())
+                                listed = self.all_lists.get(base)
+                                if "__all__" in have and listed is not None:
+                                    for nm in listed:
+                                        if nm not in have and base + "." + nm not in mods:
+                                            raise ImportFailure(
+                                                "AttributeError",
+                                                m,
+                                                ln,
+                                                "module {!r} has no attribute {!r} (listed in __all__) at the "
+                                                "time of the star-import".format(base, nm),
+                                                here,
+                                            )
+                                        bound.add(nm)
+                                        tgt = modval.get((base, nm))
+                                        if tgt is not None:
+                                            modval[(m, nm)] = tgt
+                                else:
+                                    for nm in sorted(have):
+                                        if not nm.startswith("_"):
+                                            bound.add(nm)
+                                            tgt = modval.get((base, nm))
+                                            if tgt is not None:
+                                                modval[(m, nm)] = tgt
                                 continue
                             if name in ns.get(base, ()):
                                 tgt = modval.get((base, name))
@@ -250,7 +294,8 @@ class ImportMachine(object):
                                     "cannot import name {!r} from {!r}".format(name, base),
                                     here,
                                 )
-                        bound.add(asname)
+                        if name != "*":
+                            bound.add(asname)
                 elif k == "bind":
                     bound.add(e[1])
                     alias = e[3]
